@@ -43,10 +43,10 @@ REAL = ["jsonpath.fluent_api.Query", "jsonpath finditer pipeline (selectors, fil
 STUB = ["handle scheduler (IterSched)", "list model of remaining matches"]
 ASSUMPTIONS = [
     "oracle is relative to the engine's own match list for the same (query, document)",
-    "views (values/locations/items/pointers) are treated as terminal; the original handle is not used after tee(), as documented",
+    "views (values/locations/items/pointers) are terminal: once a view of a handle is opened no further chained operation is applied to that handle, but the view itself may be consumed lazily, interleaved with operations on other handles; the original handle is not used after tee(), as documented",
     "a handle is not observed again after last_one() (the statement does not say what remains)",
 ]
-PROBES = ["neg_refused", "tee_alternation", "take_then_parent", "empty_source", "drain_after_chain3"]
+PROBES = ["lazy_view_interleaved", "neg_refused", "tee_alternation", "take_then_parent", "empty_source", "drain_after_chain3"]
 
 LIMIT_OPS = ["limit", "head", "first"]
 SKIP_OPS = ["skip", "drop"]
@@ -114,7 +114,8 @@ def generate(seed: int, config: str, tier: str) -> Dict[str, Any]:
             n = -1 if rng.random() < p_neg else rng.randint(0, L + 2)
         else:
             n = 0
-        ops.append([kind, n])
+        # a view may be consumed lazily, one element at a time, interleaved with operations on other handles
+        ops.append([kind, n, 1] if (kind in VIEWS and rng.random() < 0.5) else [kind, n])
     plan = {
         "doc": doc,
         "query": query,
@@ -126,7 +127,7 @@ def generate(seed: int, config: str, tier: str) -> Dict[str, Any]:
 
 
 class _Handle:
-    __slots__ = ("hid", "q", "model", "lineage", "last_op", "nops")
+    __slots__ = ("hid", "q", "model", "lineage", "last_op", "nops", "view")
 
     def __init__(self, hid: int, q: Any, model: List[int], lineage: str) -> None:
         self.hid = hid
@@ -135,6 +136,7 @@ class _Handle:
         self.lineage = lineage
         self.last_op = "new"
         self.nops = 0
+        self.view: Any = None  # (view name, open iterator) once a view is being consumed lazily
 
 
 def _cls(n: int, length: int) -> str:
@@ -217,7 +219,58 @@ def execute(spec: Dict[str, Any], ctx: Ctx) -> None:
                 f"{clause}:{view}",
             )
 
-    for kind, n in plan["ops"]:
+    def view_obs(view: str, item: Any) -> Any:
+        if view == "values":
+            return core.tj(item)
+        if view == "locations":
+            return item
+        if view == "items":
+            return (item[0], core.tj(item[1]))
+        if view == "pointers":
+            return str(item)
+        return obs_match(item)
+
+    def view_exp(view: str, i: int) -> Any:
+        if view == "values":
+            return ref[i][1]
+        if view == "locations":
+            return ref[i][0]
+        if view == "pointers":
+            return ref[i][2]
+        return (ref[i][0], ref[i][1])
+
+    def step_view(h: _Handle) -> bool:
+        """One element of a lazily consumed view. Returns False when it is exhausted."""
+        view, vit = h.view
+        try:
+            item = next(vit)
+            got: Any = view_obs(view, item)
+        except StopIteration:
+            got = StopIteration
+        except Exception as e:  # noqa: BLE001
+            raise Violation(
+                clause_for(h, "C12.drain"),
+                f"stepping the {view} view of handle {h.hid} ({h.lineage}) raised {type(e).__name__}: {e}",
+                f"C12.drain:lazy:{view}:raise:{type(e).__name__}",
+            ) from None
+        exp = view_exp(view, h.model[0]) if h.model else StopIteration
+        ctx.log.add("viewstep", h.hid, view, len(h.model))
+        if got != exp:
+            raise Violation(
+                clause_for(h, "C12.drain"),
+                f"the {view} view of handle {h.hid} ({h.lineage}), consumed lazily, gave "
+                f"{'end of iteration' if got is StopIteration else core.short(got)} but the list model says "
+                f"{'end of iteration' if exp is StopIteration else core.short(exp)} ({len(h.model)} remaining)",
+                f"C12.drain:lazy:{view}",
+            )
+        if got is StopIteration:
+            return False
+        h.model = h.model[1:]
+        return True
+
+    for op in plan["ops"]:
+        kind, n = op[0], op[1]
+        lazy = len(op) > 2 and bool(op[2])
         if not live:
             break
         pick = ctx.choose(len(live), "handle")
@@ -232,6 +285,12 @@ def execute(spec: Dict[str, Any], ctx: Ctx) -> None:
         last_handle = h.hid
         executed += 1
         ctx.steps += 1
+        if h.view is not None:
+            ctx.count("probe.lazy_view_interleaved")
+            if not step_view(h):
+                live.remove(h)
+            ctx.state(tuple(sorted(len(x.model) for x in live)), "viewstep")
+            continue
         ctx.log.add("op", h.hid, kind, n, "remaining", len(h.model))
         ctx.state("pair", h.last_op, kind, _cls(n, len(h.model)))
         retire = False
@@ -321,6 +380,10 @@ def execute(spec: Dict[str, Any], ctx: Ctx) -> None:
                         "C12.step:next",
                     )
                 h.model = h.model[1:]
+            elif kind in VIEWS and lazy:
+                vit = iter(h.q) if kind == "iter" else iter(getattr(h.q, kind)())
+                h.view = (kind, vit)
+                ctx.log.add("viewopen", h.hid, kind)
             elif kind in VIEWS:
                 if h.nops >= 3:
                     ctx.count("probe.drain_after_chain3")
@@ -347,6 +410,13 @@ def execute(spec: Dict[str, Any], ctx: Ctx) -> None:
     # final: every live handle is drained and compared
     views = plan["final_views"]
     for i, h in enumerate(list(live)):
+        if h.view is not None:
+            guard = 0
+            while step_view(h):
+                guard += 1
+                if guard > 10000:
+                    raise Violation("C12.final", f"the {h.view[0]} view of handle {h.hid} does not end", "C12.final:endless")
+            continue
         check_drain(h, views[i % len(views)], "C12.final")
     ctx.nontrivial = executed >= 3 and len(ref) >= 2 and alternations >= 1
     ctx.count("ops_executed", executed)
@@ -358,7 +428,13 @@ def shrink_plan(plan: Dict[str, Any]) -> Iterator[Dict[str, Any]]:
         p = dict(plan)
         p["ops"] = ops
         yield p
-    for i, (kind, n) in enumerate(plan["ops"]):
+    for i, o in enumerate(plan["ops"]):
+        kind, n = o[0], o[1]
+        if len(o) > 2 and o[2]:
+            p = dict(plan)
+            p["ops"] = [list(x) for x in plan["ops"]]
+            p["ops"][i] = [kind, n]
+            yield p
         if n > 0:
             for m in (0, 1, n - 1):
                 if 0 <= m < n:
